@@ -26,7 +26,7 @@ REAL = ['circuits.core.manager.Manager (fire/_fire/flush/tick/_dispatcher/_Event
         'circuits.core.handlers.handler', 'circuits.core.events.Event']
 STUBBED = ['handler tie-break order and task order (decided by the tape through Manager.getHandlers / _tasks seams)']
 ASSUMPTIONS = ['all components use channel "*"; handlers may override their channel (a/b) and events may be fired on explicit channels, also two at once: for those only the order and stop() clauses are judged (matching is C01\'s subject)', 'handlers are not generators; a handler may raise (after firing/stopping): the order and stop() clauses hold regardless']
-PROBES = ['fired-in-handler', 'nested-flush', 'nested-flush-new-pass', 'stop', 'mixed-priority-pass', 'tie-priority-handlers', 'fault:handler-raise', 'stop-then-raise', 'multi-channel-event', 'stop-then-refire-same-object']
+PROBES = ['fired-in-handler', 'nested-flush', 'nested-flush-new-pass', 'stop', 'mixed-priority-pass', 'tie-priority-handlers', 'fault:handler-raise', 'stop-then-raise', 'multi-channel-event', 'stop-then-refire-same-object', 'large-run', 'burst>256', 'handler-without-event-parameter', 'stop-by-handler-without-event-parameter']
 TIERS = {
     'quick': dict(runs=60000, wall=35, chunk=250, cfg=dict(max_events=40, max_ops=12)),
     'thorough': dict(runs=600000, wall=600, chunk=500, cfg=dict(max_events=120, max_ops=30)),
@@ -77,7 +77,13 @@ def run_one(ctx):
     world.reset(ctx)
     cfg = ctx.cfg
     model = PassModel()
-    st = dict(next_eid=0, budget=ch.randint(4, cfg['max_events'], 'event-budget'), inv=0, depth=0, flush_depth=0, xmap={}, obs_seen=set())
+    # one run in 150 is LARGE: several hundred events queued before one pass (a pass that only takes part of the queue, or an order that
+    # degrades with the queue length, cannot show with a handful of events)
+    big = ch.chance(1, 150, 'large-run')
+    if big:
+        ctx.stat('large-run')
+    st = dict(next_eid=0, budget=ch.randint(300, 700, 'event-budget-large') if big else ch.randint(4, cfg['max_events'], 'event-budget'),
+              inv=0, depth=0, flush_depth=0, xmap={}, obs_seen=set(), cur_event=None)
     handled = {}   # eid -> list of (hid, prio, stopped_here)
     dispatched = []
     meta = {}      # eid -> dict(name, prio)
@@ -132,10 +138,12 @@ def run_one(ctx):
             ctx.stat('nested-flush')
             if newpass:
                 ctx.stat('nested-flush-new-pass')
+        outer = st['cur_event']
         if how == 'tick':
             comp.tick()
         else:
             comp.flush()
+        st['cur_event'] = outer          # a nested flush dispatched other events: the handlers of the outer event are still to come
         st['flush_depth'] -= 1
         if st['flush_depth'] == 0 and not model.exhausted():
             ctx.violation('C02/pass-incomplete', 'flush returned with events of the pass undispatched: %r' % (model.cur[model.idx:],))
@@ -150,7 +158,11 @@ def run_one(ctx):
         hid = hid_counter[0]
         hchan = [None, None, None, 'a', 'b'][ch.draw(5, 'handler-channel')]
 
-        def h(self, event, *args, **kwargs):
+        # one handler in four does not declare the `event` parameter (the dispatcher then does not pass the event); it reaches the event
+        # object it is handling another way - here through the reference the catch-all observer noted when the dispatch began
+        noev = ch.chance(1, 4, 'handler-without-event-parameter')
+
+        def body(self, event):
             eid = getattr(event, 'sim_id', None)
             if eid is None:
                 return
@@ -174,6 +186,8 @@ def run_one(ctx):
                         event.stop()
                         rec[2] = True
                         ctx.stat('stop')
+                        if noev:
+                            ctx.stat('stop-by-handler-without-event-parameter')
                     elif act[0] == 'flush':
                         do_flush(self, 'flush', 'h%d' % hid)
                     elif act[0] == 'stop-refire':
@@ -210,6 +224,15 @@ def run_one(ctx):
                         raise RuntimeError('sim: handler h%d fails' % hid)
             finally:
                 st['depth'] -= 1
+
+        if noev:
+            ctx.stat('handler-without-event-parameter')
+
+            def h(self, *args, **kwargs):
+                return body(self, st['cur_event'])
+        else:
+            def h(self, event, *args, **kwargs):
+                return body(self, event)
         h.__name__ = 'h%d' % hid
         for n in names:
             all_handlers.setdefault(n, []).append((hid, prio))
@@ -239,6 +262,8 @@ def run_one(ctx):
         @handler(priority=1e18, channel='*')
         def _sim_obs(self, event, *args, **kwargs):
             eid = getattr(event, 'sim_id', None)
+            if eid is not None:
+                st['cur_event'] = event
             if eid is not None and getattr(event, 'sim_more', None) is not None:
                 event.sim_seen = k = getattr(event, 'sim_seen', 0) + 1
                 if k > 1:
@@ -291,7 +316,12 @@ def run_one(ctx):
             break
         k = ch.weighted([5, 3, 1], 'op')
         if k == 0:
-            for _ in range(ch.randint(1, 4, 'burst')):
+            n = ch.randint(1, 4, 'burst')
+            if big and not st.get('big_done') and ch.chance(1, 2, 'large-burst-now'):
+                st['big_done'] = True
+                n = ch.randint(260, 600, 'large-burst')
+                ctx.stat('burst>256')
+            for _ in range(n):
                 do_fire(ch.choice(comps, 'firer'), ch.choice(NAMES, 'ext-name'), ch.choice(PRIOS, 'ext-prio'), 'ext')
         elif k == 1:
             do_flush(root, 'flush', 'ext')
@@ -302,7 +332,7 @@ def run_one(ctx):
     while len(root) and not ctx.violations:
         do_flush(root, 'flush', 'drain')
         guard += 1
-        if guard > 400:
+        if guard > (3000 if big else 400):
             raise HarnessLimit('drain did not terminate')
 
     if not ctx.violations:
